@@ -3,6 +3,9 @@
    (Engine/Continue.v::deliver_errors) run with the regenerated switches. *)
 From Ink.Engine Require Import Api Tie.
 From Ink.Shell Require Import DeliveryProofs.
+From Ink.Gen Require Import SaveGen.
+From Ink.Engine Require Import Save.
+From Ink.Shell Require Import LoadErrors.
 
 Theorem delivered_once_with_handler : forall (w : world),
   w_handler w = true ->
@@ -40,3 +43,15 @@ Check no_handler_warning_not_err : forall (w : world),
   exists w', deliver_errors sw_now w = (OOk tt, w')
              /\ ss_warnings (w_state w') = ss_warnings (w_state w) /\ w_events w' = w_events w.
 Print Assumptions no_handler_warning_not_err.
+
+(* ---------------- "stays readable until reset": a load is not a reset ---------------- *)
+Theorem load_state_keeps_errors_and_warnings :
+  forall (sp : ssite -> bool) (ssw : save_switches) (w : world) (j : json),
+    ss_errors (w_state (snd (load_state sp ssw w j))) = ss_errors (w_state w) /\
+    ss_warnings (w_state (snd (load_state sp ssw w j))) = ss_warnings (w_state w).
+Proof. exact LoadErrors.load_state_keeps_errors_and_warnings. Qed.
+Check load_state_keeps_errors_and_warnings :
+  forall (sp : ssite -> bool) (ssw : save_switches) (w : world) (j : json),
+    ss_errors (w_state (snd (load_state sp ssw w j))) = ss_errors (w_state w) /\
+    ss_warnings (w_state (snd (load_state sp ssw w j))) = ss_warnings (w_state w).
+Print Assumptions load_state_keeps_errors_and_warnings.
